@@ -103,7 +103,14 @@ def p_show(e) -> str:
 _PYOPS = {ast.Gt: ">", ast.GtE: ">=", ast.Lt: "<", ast.LtE: "<=", ast.Eq: "==", ast.NotEq: "!="}
 
 
+_PRED_LOCALS: Dict[str, ast.AST] = {}     # single-assignment locals of the function being read (set by the extractors)
+
+
 def py_pred(n: ast.AST, project_names=("project",), settings_names=("settings",)):
+    if isinstance(n, ast.Name) and n.id in _PRED_LOCALS:
+        return py_pred(_PRED_LOCALS[n.id], project_names, settings_names)
+    if isinstance(n, ast.Call) and isinstance(n.func, ast.Name) and n.func.id == "bool" and len(n.args) == 1:
+        return py_pred(n.args[0], project_names, settings_names)
     if isinstance(n, ast.Call) and isinstance(n.func, ast.Name) and n.func.id == "len" and len(n.args) == 1:
         a = n.args[0]
         if isinstance(a, ast.Attribute) and isinstance(a.value, ast.Name) and a.value.id in project_names:
@@ -242,8 +249,57 @@ def list_page_conditions(py) -> Dict[str, Tuple[tuple, ast.AST]]:
                             p = py_pred(t)
                             g = ("and", g, p if pol else ("not", p))
                         out[page] = (g, c)
+    _PRED_LOCALS.clear()
+    _PRED_LOCALS.update(_single_locals(fn))
     visit(fn.body, [])
+    # table-driven form: rows (needed, ListClass) and `self.lists = [cls(...) for needed, cls in rows if needed]`
+    for st in ast.walk(fn):
+        if not (isinstance(st, ast.Assign) and any(ast.unparse(t) == "self.lists" for t in st.targets)
+                and isinstance(st.value, ast.ListComp) and len(st.value.generators) == 1):
+            continue
+        g = st.value.generators[0]
+        if not (isinstance(g.target, ast.Tuple) and isinstance(st.value.elt, ast.Call) and isinstance(st.value.elt.func, ast.Name)):
+            continue
+        names = [e.id if isinstance(e, ast.Name) else None for e in g.target.elts]
+        if st.value.elt.func.id not in names:
+            continue
+        ci_ = names.index(st.value.elt.func.id)
+        flt = [names.index(i.id) for i in g.ifs if isinstance(i, ast.Name) and i.id in names]
+        table = g.iter
+        if isinstance(table, ast.Name):
+            table = _single_locals(fn, keep_lists=True).get(table.id)
+        if not isinstance(table, (ast.List, ast.Tuple)):
+            continue
+        for row in table.elts:
+            if not (isinstance(row, ast.Tuple) and len(row.elts) == len(names) and isinstance(row.elts[ci_], ast.Name)):
+                continue
+            cls = row.elts[ci_].id
+            ci = py.classes.get(cls)
+            page = py.eval_str(ci.class_attrs["out_page"]) if ci and "out_page" in ci.class_attrs else None
+            if page is None:
+                raise AnalysisError(f"ListPage class {cls} has no constant out_page")
+            gd = ("const", True)
+            for k in flt:
+                gd = ("and", gd, py_pred(row.elts[k]))
+            out[page] = (gd, row)
     return out
+
+
+def _single_locals(fn: ast.AST, keep_lists: bool = False) -> Dict[str, ast.AST]:
+    """locals of fn that are bound exactly once by a plain (annotated) assignment: name -> value"""
+    seen: Dict[str, List[ast.AST]] = {}
+    for st in ast.walk(fn):
+        if isinstance(st, ast.Assign) and len(st.targets) == 1 and isinstance(st.targets[0], ast.Name):
+            seen.setdefault(st.targets[0].id, []).append(st.value)
+        elif isinstance(st, ast.AnnAssign) and isinstance(st.target, ast.Name) and st.value is not None:
+            seen.setdefault(st.target.id, []).append(st.value)
+        elif isinstance(st, (ast.AugAssign, ast.For, ast.comprehension, ast.NamedExpr)):
+            t = st.target
+            for x in ast.walk(t):
+                if isinstance(x, ast.Name):
+                    seen.setdefault(x.id, []).extend([None, None])
+    return {k: v[0] for k, v in seen.items() if len(v) == 1 and v[0] is not None
+            and (keep_lists or not isinstance(v[0], (ast.List, ast.Dict, ast.Tuple, ast.ListComp, ast.DictComp)))}
 
 
 def entity_page_map(py) -> Dict[str, tuple]:
@@ -269,16 +325,35 @@ def entity_page_map(py) -> Dict[str, tuple]:
                     for t in conds:
                         g = ("and", g, py_pred(t))
                     return g
-                if isinstance(st, ast.AnnAssign) and isinstance(st.target, ast.Name) \
-                        and st.target.id == "entity_list_page_map" and isinstance(st.value, ast.List):
-                    for e in st.value.elts:
+                val = st.value if isinstance(st, (ast.AnnAssign, ast.Assign)) else None
+                tgt = (st.target if isinstance(st, ast.AnnAssign) else st.targets[0]) if val is not None else None
+                if isinstance(tgt, ast.Name) and isinstance(val, ast.List) and val.elts and all(
+                        isinstance(e, ast.Tuple) and len(e.elts) == 2 for e in val.elts):
+                    # a table of (project.<list>, PageClass) rows
+                    tables.add(tgt.id)
+                    for e in val.elts:
                         add_tuple(e, mk())
+                if isinstance(tgt, ast.Name) and isinstance(val, ast.Dict) and val.keys and all(
+                        isinstance(k, ast.Constant) and isinstance(k.value, str) and isinstance(v, ast.Name) and is_page(v.id)
+                        for k, v in zip(val.keys, val.values)):
+                    # a table {"<list>": PageClass}, read with getattr(project, key)
+                    tables.add(tgt.id)
+                    for k in val.keys:
+                        out[k.value] = mk()
+                if isinstance(tgt, ast.Subscript) and isinstance(tgt.value, ast.Name) and tgt.value.id in tables and \
+                        isinstance(tgt.slice, ast.Constant) and isinstance(val, ast.Name) and is_page(val.id):
+                    out[tgt.slice.value] = mk()
                 for c in py.walk_calls(st):
-                    if call_name(c) == "entity_list_page_map.append" and c.args:
+                    if isinstance(c.func, ast.Attribute) and c.func.attr == "append" and isinstance(c.func.value, ast.Name) \
+                            and c.func.value.id in tables and c.args:
                         add_tuple(c.args[0], mk())
+    tables: Set[str] = set()
+
+    def is_page(name: str) -> bool:
+        return name in py.classes and name.endswith("Page") or py.has_func(f"output.{name}")
     visit(fn.body, [])
     if len(out) < 5:
-        raise AnalysisError("entity_list_page_map not found in Documentation.__init__")
+        raise AnalysisError("the table of entity lists and their page classes was not found in Documentation.__init__")
     return out
 
 
@@ -294,6 +369,16 @@ def property_sublists(py, cls: str) -> Dict[str, Set[str]]:
                     isinstance(n.iter.value, ast.Name) and n.iter.value.id == "self":
                 if any(isinstance(y, (ast.Yield, ast.YieldFrom)) for y in ast.walk(n)):
                     subs.add(n.iter.attr)
+            # `yield from self.<list>`, `return chain(self.a, self.b)`, `return [*self.a, *self.b]`
+            srcs = []
+            if isinstance(n, ast.YieldFrom):
+                srcs = [n.value]
+            elif isinstance(n, ast.Return) and n.value is not None:
+                srcs = [n.value]
+            for src in srcs:
+                for a in ast.walk(src):
+                    if isinstance(a, ast.Attribute) and isinstance(a.value, ast.Name) and a.value.id == "self":
+                        subs.add(a.attr)
         if subs:
             out[name] = subs
     return out
@@ -595,10 +680,27 @@ def r3_relurl(ctx, rep):
     setup_types(ctx)
     j = ctx.j
     seen = set()
+    # template globals that hold an absolute path of the output tree: `globals=dict(page_url=self.outfile, ...)`
+    abs_globals = set()
+    for x in ast.walk(ctx.py.modules["output"]):
+        if isinstance(x, ast.keyword) and x.arg == "globals" and isinstance(x.value, ast.Call) and call_name(x.value) == "dict":
+            abs_globals |= {k.arg for k in x.value.keywords if k.arg and ast.unparse(k.value).endswith(".outfile")}
+    if not abs_globals:
+        raise AnalysisError("output: the template global holding the page's file name was not found")
     for tpl in all_page_templates(ctx):
         outs, _ = j.expand(tpl)
         for o in outs:
             if "<in-test>" in o.macros:
+                continue
+            if o.src.strip() in abs_globals:
+                # the page's own absolute file name is an argument for relurl, never something to print
+                key = (o.template, o.lineno, o.src)
+                if key not in seen:
+                    seen.add(key)
+                    rep.ob(f"template={o.template} expr={o.src} (absolute path)", False,
+                           f"`{{{{ {o.src} }}}}` writes the absolute file-system path of the page into the HTML "
+                           f"(get_template(globals=...{o.src}=self.outfile)): the output is not relocatable and shows the build "
+                           f"directory", o.loc)
                 continue
             if o.core_etype not in ("E", "EL", "LS") and o.etype not in ("E", "EL", "LS"):
                 continue
@@ -788,14 +890,13 @@ def r5_dirs(ctx, rep):
            "FortranBase.get_url returns '<get_dir()>/<ident>.html'" if ok else
            f"FortranBase.get_url composes the page URL as {sorted(shapes) or 'an expression that is not understood'}",
            py.nloc(guf))
-    opf, off = py.func("DocPage.object_page"), py.func("DocPage.outfile")
-    opv = {py.eval_const(r, {"__by_text__": True, "self.obj.ident": "{ident}"}) for r in astq.returns(opf)}
-    outs_ = astq.returns(off)
-    of_ok = bool(outs_) and all(astq.mentions(r, "self.out_dir", off) and astq.mentions(r, "self.obj.get_dir()", off)
-                                and astq.mentions(r, "self.object_page", off) for r in outs_)
-    rep.ob("DocPage.outfile composes out_dir/get_dir()/ident.html", opv == {"{ident}.html"} and of_ok,
-           "DocPage writes the page exactly where get_url points" if opv == {"{ident}.html"} and of_ok else
-           f"DocPage.object_page = {sorted(map(str, opv))}, outfile = {[ast.unparse(r) for r in outs_]}", py.nloc(off))
+    # symbolic value of the property, resolved through the class hierarchy (DocPage may inherit `outfile` and supply `loc`)
+    off = py.resolve_method("DocPage", "outfile")[1]
+    outv = py.path_values("DocPage", "outfile", {"self.out_dir": "{out}", "self.obj.get_dir()": "{dir}", "self.obj.ident": "{ident}"})
+    of_ok = outv == {"{out}/{dir}/{ident}.html"}
+    rep.ob("DocPage.outfile composes out_dir/get_dir()/ident.html", of_ok,
+           "DocPage writes the page exactly where get_url points" if of_ok else
+           f"DocPage.outfile = {sorted(outv)}", py.nloc(off))
     # asset directories referenced from templates under project_url exist
     copied: Set[str] = set(created)
     for c in py.walk_calls(fn):
@@ -904,8 +1005,9 @@ def r8_anchor_targets_exist(ctx, rep):
         kinds_of: Dict[str, List[Tuple[Set[str], List[str]]]] = {}      # per anchor: (row kinds the output is emitted for, dyn)
         for o in outs:
             if o.ctx == ("attr", "id") and "<in-test>" not in o.macros and o.sym.endswith(".anchor"):
-                dyn = [c[0] for c in o.conds if re.search(r"\.visible\b|\bsummary\b", sym(c[2]))
-                       and (c[1] or re.search(r"\bnot\b", sym(c[2])) is None)]
+                # the condition as written in the macro and with the caller's arguments substituted (`id=not proc.visible`)
+                dyn = [c[0] for c in o.conds if any(re.search(r"\.visible\b|\bsummary\b", t)
+                                                    and (c[1] or re.search(r"\bnot\b", t) is None) for t in (sym(c[2]), c[0]))]
                 ids.setdefault(o.sym, []).append(dyn)
                 ks = {m.group(1) for c in o.conds if c[1] for m in [re.search(r"\.obj == '(\w+)'\)?$", c[0])] if m}
                 kinds_of.setdefault(o.sym, []).append((ks or {"*"}, dyn))
@@ -941,6 +1043,30 @@ def r8_anchor_targets_exist(ctx, rep):
     # a dummy argument may be a procedure (described by an interface block): [[proc:arg]] then points at '#proc-<arg>', so the
     # argument table must emit the id for that kind of row as well
     if _args_may_hold_procedures(py):
+        # the procedure that replaces the dummy argument gets its URL from its parent: it has to be re-parented from the
+        # interface block (which has no page section of its own here) to the procedure it is an argument of
+        fn = py.ifunc("FortranProcedure._cleanup")
+        stored = {ast.unparse(st.value) for st in ast.walk(fn) if isinstance(st, ast.Assign) and isinstance(st.value, ast.Name) and any(
+            isinstance(t, ast.Subscript) and ast.unparse(t.value) == "self.args" for t in st.targets)}
+        aliases = set(stored)
+        for _ in range(3):
+            for st in ast.walk(fn):
+                if isinstance(st, ast.Assign) and len(st.targets) == 1 and isinstance(st.targets[0], ast.Name):
+                    t, v = st.targets[0].id, st.value
+                    if t in aliases and isinstance(v, ast.Name):
+                        aliases.add(v.id)
+        from_iface = {a for a in aliases for st in ast.walk(fn) if isinstance(st, ast.Assign) and len(st.targets) == 1
+                      and isinstance(st.targets[0], ast.Name) and st.targets[0].id == a
+                      and any(isinstance(x, ast.Attribute) and x.attr == "procedure" for x in ast.walk(st.value))}
+        reparented = any(isinstance(st, ast.Assign) and isinstance(st.targets[0], ast.Attribute) and st.targets[0].attr == "parent"
+                         and isinstance(st.targets[0].value, ast.Name) and st.targets[0].value.id in aliases
+                         and ast.unparse(st.value) == "self" for st in ast.walk(fn))
+        if not from_iface:
+            raise AnalysisError("FortranProcedure._cleanup: the interface procedure that replaces a dummy argument was not identified")
+        rep.ob("a dummy procedure is re-parented to the procedure it is an argument of", reparented,
+               "its URL is '<page of the procedure>#proc-<name>'" if reparented else
+               "the procedure taken from the interface block keeps the block as its parent: its URL (and that of its own "
+               "arguments) becomes 'interface/<name>.html', a page that is never written", py.nloc(fn), nontrivial=True)
         for tpl, kinds in sorted(arg_kinds.items()):
             ok = "*" in kinds or {"variable", "proc"} <= kinds
             rep.ob(f"page={tpl} argument anchors cover dummy procedures", ok,
@@ -1078,9 +1204,13 @@ def r7_pageable_entities_get_pages(ctx, rep):
                    f"{sorted(covered)}): the page is never written and the links dangle",
                    py.nloc(where) if where is not None else py.nloc(fn))
     # top-level procedures and units are registered at parse time
-    ff = ast.unparse(py.func("Project._fortran_file"))
+    ffn = py.func("Project._fortran_file")
+    filled = {c.func.value.attr for c in py.walk_calls(ffn) if isinstance(c.func, ast.Attribute) and c.func.attr in ("append", "extend")
+              and isinstance(c.func.value, ast.Attribute) and ast.unparse(c.func.value.value) == "self" and c.args}
+    filled |= {t.attr for st in ast.walk(ffn) if isinstance(st, ast.AugAssign) for t in [st.target]
+               if isinstance(t, ast.Attribute) and ast.unparse(t.value) == "self"}
     for lst in ("modules", "submodules", "procedures", "programs", "blockdata", "files"):
-        ok = f"self.{lst}.append(" in ff and (lst in epm or lst == "files")
+        ok = lst in filled and (lst in epm or lst == "files")
         rep.ob(f"top-level {lst} registered and paged", ok, "", "ford/fortran_project.py", nontrivial=False)
 
 
